@@ -84,3 +84,8 @@ Definition S_zip_roundtrip_par : Prop :=
        = Some lg
     /\ read_zip_ra le cs p sr (length lg) (gbits ++ restg) (f_lbits f ++ padl) (f_obits f ++ pado)
        = Some lg.
+
+(** The state machine writes exactly the closed form: every node's serialized labels in
+    node order, and γ(0) followed by γ of every node's bit count. *)
+Definition S_store_closed : Prop := forall le sr (lg : lgraph),
+  lab_seq le sr lg = lab_closed le sr lg.
